@@ -1,12 +1,20 @@
 package main
 
 import (
+	"bytes"
 	"context"
 	"fmt"
+	"strings"
+
+	"github.com/orbs-network/lean-helix-go/services/interfaces"
+	"github.com/orbs-network/lean-helix-go/services/randomseed"
+	"github.com/orbs-network/lean-helix-go/spec/types/go/primitives"
+	"github.com/orbs-network/lean-helix-go/spec/types/go/protocol"
 )
 
 // Monitors evaluate the properties' own predicates on the real nodes' behaviour, independently of
-// the Lean model.  A hit becomes a concrete failing history (the scenario's op lines).
+// the Lean model (reference predicates written from the property statements).  A hit becomes a
+// concrete failing history (the scenario's op lines).
 type Monitors struct {
 	net       *Net
 	decided   map[uint64]map[string]*FakeBlock // height -> node id -> block
@@ -15,19 +23,438 @@ type Monitors struct {
 	nCommits  map[string]int
 	nRounds   map[string]int
 	nCb       map[string]int
+	pre       preState
+	// C10: what each correct node signed
+	signedPP  map[string]string // node|h|v -> hash
+	signedP   map[string]string
+	signedC   map[string]string
+	lastVC    map[string]int64 // node|h -> last VIEW_CHANGE view
+	maxView   map[string]uint64
+	delivered map[string]map[string]bool // node -> raw content already delivered (duplicates)
+}
+
+type preState struct {
+	h, v      uint64
+	prepared  string
+	hasPPAtMV bool
+	dup       bool
+	snapshot  string
+	in        bool
 }
 
 func NewMonitors(net *Net) *Monitors {
-	return &Monitors{net: net, decided: map[uint64]map[string]*FakeBlock{}, lastCommH: map[string]uint64{}, lastRound: map[string]uint64{}, nCommits: map[string]int{}, nRounds: map[string]int{}, nCb: map[string]int{}}
+	return &Monitors{net: net, decided: map[uint64]map[string]*FakeBlock{}, lastCommH: map[string]uint64{}, lastRound: map[string]uint64{},
+		nCommits: map[string]int{}, nRounds: map[string]int{}, nCb: map[string]int{},
+		signedPP: map[string]string{}, signedP: map[string]string{}, signedC: map[string]string{}, lastVC: map[string]int64{}, maxView: map[string]uint64{},
+		delivered: map[string]map[string]bool{}}
 }
 
 func (m *Monitors) viol(prop, sig, what string) {
 	m.net.c.Violation(prop, sig, what, m.net.replay())
 }
 
-func (m *Monitors) beforeDeliver(n *RealNode, f *Flight) {}
+// ---------- reference notions, written from the property text
 
-func (m *Monitors) afterDeliver(n *RealNode, f *Flight, enc string) {}
+func (m *Monitors) W() (W, f, Q uint64) {
+	for _, mem := range m.net.members {
+		W += uint64(mem.Weight)
+	}
+	f = (W - 1) / 3
+	return W, f, W - f
+}
+
+func (m *Monitors) weight(ids map[string]bool) uint64 {
+	var w uint64
+	for _, mem := range m.net.members {
+		if ids[string(mem.Id)] {
+			w += uint64(mem.Weight)
+		}
+	}
+	return w
+}
+
+func (m *Monitors) isMember(id []byte) bool {
+	for _, mem := range m.net.members {
+		if bytes.Equal(mem.Id, id) {
+			return true
+		}
+	}
+	return false
+}
+
+func (m *Monitors) leader(v uint64) []byte { return m.net.members[v%uint64(len(m.net.members))].Id }
+
+func (m *Monitors) verifies(n *RealNode, h primitives.BlockHeight, raw []byte, s *protocol.SenderSignature) bool {
+	return n.KM.VerifyConsensusMessage(h, raw, s) == nil
+}
+
+// a prepared proof "shows valid signatures over one (instance, height, earlier view, hash) by that
+// view's leader and by distinct other committee members together reaching quorum weight"
+func (m *Monitors) proofValid(n *RealNode, p *protocol.PreparedProof, h, targetView uint64) (bool, string) {
+	pp, pr := p.PreprepareBlockRef(), p.PrepareBlockRef()
+	inst := primitives.InstanceId(m.net.w.Inst)
+	if pp.MessageType() != protocol.LEAN_HELIX_PREPREPARE || pr.MessageType() != protocol.LEAN_HELIX_PREPARE {
+		return false, "proof-wrong-type"
+	}
+	if pp.InstanceId() != inst || pr.InstanceId() != inst {
+		return false, "proof-foreign-instance"
+	}
+	if uint64(pp.BlockHeight()) != h || uint64(pr.BlockHeight()) != h {
+		return false, "proof-wrong-height"
+	}
+	if uint64(pp.View()) >= targetView || pp.View() != pr.View() {
+		return false, "proof-view"
+	}
+	if !bytes.Equal(pp.BlockHash(), pr.BlockHash()) {
+		return false, "proof-hash"
+	}
+	ld := m.leader(uint64(pp.View()))
+	if !bytes.Equal(p.PreprepareSender().MemberId(), ld) || !m.verifies(n, pp.BlockHeight(), pp.Raw(), p.PreprepareSender()) {
+		return false, "proof-leader-signature"
+	}
+	ids := map[string]bool{string(ld): true}
+	it := p.PrepareSendersIterator()
+	for it.HasNext() {
+		s := it.NextPrepareSenders()
+		if ids[string(s.MemberId())] {
+			return false, "proof-duplicate-or-leader-sender"
+		}
+		if !m.isMember(s.MemberId()) {
+			return false, "proof-outsider"
+		}
+		if !m.verifies(n, pr.BlockHeight(), pr.Raw(), s) {
+			return false, "proof-bad-signature"
+		}
+		ids[string(s.MemberId())] = true
+	}
+	_, _, Q := m.W()
+	if m.weight(ids) < Q {
+		return false, "proof-below-quorum"
+	}
+	return true, ""
+}
+
+func hasProof(p *protocol.PreparedProof) bool { return p != nil && len(p.Raw()) > 0 }
+
+func (m *Monitors) voteValid(n *RealNode, c *protocol.ViewChangeMessageContent, h, v uint64) (bool, string) {
+	hd := c.SignedHeader()
+	if hd.MessageType() != protocol.LEAN_HELIX_VIEW_CHANGE {
+		return false, "vote-wrong-type"
+	}
+	if uint64(hd.InstanceId()) != m.net.w.Inst {
+		return false, "vote-foreign-instance"
+	}
+	if uint64(hd.BlockHeight()) != h || uint64(hd.View()) != v {
+		return false, "vote-wrong-height-or-view"
+	}
+	if !m.isMember(c.Sender().MemberId()) {
+		return false, "vote-outsider"
+	}
+	if !m.verifies(n, hd.BlockHeight(), hd.Raw(), c.Sender()) {
+		return false, "vote-bad-signature"
+	}
+	if hasProof(hd.PreparedProof()) {
+		if ok, why := m.proofValid(n, hd.PreparedProof(), h, v); !ok {
+			return false, "vote-" + why
+		}
+	}
+	return true, ""
+}
+
+// C07: the NEW_VIEW certificate a node may act upon in view v > 0
+func (m *Monitors) newViewValid(n *RealNode, nv *interfaces.NewViewMessage, h uint64) (bool, string) {
+	hd := nv.Content().SignedHeader()
+	v := uint64(hd.View())
+	if hd.MessageType() != protocol.LEAN_HELIX_NEW_VIEW {
+		return false, "nv-wrong-type"
+	}
+	if uint64(hd.InstanceId()) != m.net.w.Inst || uint64(hd.BlockHeight()) != h {
+		return false, "nv-wrong-instance-or-height"
+	}
+	if !bytes.Equal(nv.Content().Sender().MemberId(), m.leader(v)) || !m.verifies(n, hd.BlockHeight(), hd.Raw(), nv.Content().Sender()) {
+		return false, "nv-not-signed-by-leader"
+	}
+	ids := map[string]bool{}
+	var best *protocol.ViewChangeMessageContent
+	it := hd.ViewChangeConfirmationsIterator()
+	for it.HasNext() {
+		c := it.NextViewChangeConfirmations()
+		if ok, why := m.voteValid(n, c, h, v); !ok {
+			return false, "nv-" + why
+		}
+		if ids[string(c.Sender().MemberId())] {
+			return false, "nv-duplicate-vote"
+		}
+		ids[string(c.Sender().MemberId())] = true
+		if hasProof(c.SignedHeader().PreparedProof()) {
+			if best == nil || c.SignedHeader().PreparedProof().PreprepareBlockRef().View() > best.SignedHeader().PreparedProof().PreprepareBlockRef().View() {
+				best = c
+			}
+		}
+	}
+	_, _, Q := m.W()
+	if m.weight(ids) < Q {
+		return false, "nv-votes-below-quorum"
+	}
+	pp := nv.Content().Message().SignedHeader()
+	if pp.MessageType() != protocol.LEAN_HELIX_PREPREPARE || uint64(pp.InstanceId()) != m.net.w.Inst || uint64(pp.BlockHeight()) != h || uint64(pp.View()) != v {
+		return false, "nv-embedded-proposal-mismatch"
+	}
+	if !bytes.Equal(nv.Content().Message().Sender().MemberId(), m.leader(v)) || !m.verifies(n, pp.BlockHeight(), pp.Raw(), nv.Content().Message().Sender()) {
+		return false, "nv-embedded-proposal-not-signed-by-leader"
+	}
+	fb, _ := nv.Block().(*FakeBlock)
+	if fb == nil || !bytes.Equal(blockHash(fb), pp.BlockHash()) {
+		return false, "nv-block-does-not-match-proposal-hash"
+	}
+	if best != nil {
+		if !bytes.Equal(best.SignedHeader().PreparedProof().PreprepareBlockRef().BlockHash(), pp.BlockHash()) {
+			return false, "nv-proposal-is-not-the-highest-prepared-block"
+		}
+	}
+	return true, ""
+}
+
+// ---------- hooks called by the scenario runner
+
+func key(n *RealNode, h, v uint64) string { return fmt.Sprintf("%d|%d|%d", n.Idx, h, v) }
+
+func (m *Monitors) beforeDeliver(n *RealNode, f *Flight) {
+	hv := n.St.HeightView()
+	m.pre = preState{h: uint64(hv.Height()), v: uint64(hv.View()), in: n.Worker.VerifTerm() != nil, snapshot: stateOnly(n.snapshot())}
+	if t := n.Worker.VerifTerm(); t != nil {
+		if pv, ok := t.VerifPreparedLocally(); ok {
+			m.pre.prepared = fmt.Sprintf("%d", uint64(pv))
+		}
+	}
+	cm := interfaces.ToConsensusMessage(f.Raw)
+	if cm != nil {
+		_, m.pre.hasPPAtMV = n.Store.GetPreprepareMessage(cm.BlockHeight(), cm.View())
+	}
+	if m.delivered[string(n.Id)] == nil {
+		m.delivered[string(n.Id)] = map[string]bool{}
+	}
+	k := string(f.Raw.Content) + "|" + blockTok(f.Raw.Block)
+	m.pre.dup = m.delivered[string(n.Id)][k]
+	m.delivered[string(n.Id)][k] = true
+}
+
+func stateOnly(snap string) string {
+	if i := strings.Index(snap, " outs="); i >= 0 {
+		return snap[:i]
+	}
+	return snap
+}
+
+func sendsOrCallbacks(outs []string) bool {
+	for _, o := range outs {
+		if strings.HasPrefix(o, "send:") || strings.HasPrefix(o, "commit:") || strings.HasPrefix(o, "reg:") || strings.HasPrefix(o, "round:") {
+			return true
+		}
+	}
+	return false
+}
+
+func (m *Monitors) afterDeliver(n *RealNode, f *Flight, enc string) {
+	net := m.net
+	cm := interfaces.ToConsensusMessage(f.Raw)
+	if cm == nil {
+		return
+	}
+	pre := m.pre
+	atHeight := uint64(cm.BlockHeight()) == pre.h && pre.in
+	influenced := len(n.Stored) > 0 || sendsOrCallbacks(n.outs) || stateOnly(n.snapshot()) != pre.snapshot
+	// a message for a future height is only cached: that is not influence on the protocol state (C17 covers it)
+	if uint64(cm.BlockHeight()) > pre.h {
+		influenced = false
+	}
+	mh, mv := uint64(cm.BlockHeight()), uint64(cm.View())
+	_ = mh
+	advTag := ""
+	if net.lastAdvOp != "" {
+		advTag = " (adversary operator " + net.lastAdvOp + ")"
+	}
+
+	// ---- C08: only authentic, in-committee, role- and height-correct messages influence a node
+	if influenced {
+		why := ""
+		switch x := cm.(type) {
+		case *interfaces.PreprepareMessage:
+			hd := x.Content().SignedHeader()
+			switch {
+			case hd.MessageType() != protocol.LEAN_HELIX_PREPREPARE:
+				why = "type-mismatch"
+			case uint64(hd.InstanceId()) != net.w.Inst || !atHeight:
+				why = "wrong-instance-or-height"
+			case !m.isMember(x.SenderMemberId()):
+				why = "outsider-sender"
+			case !m.verifies(n, hd.BlockHeight(), hd.Raw(), x.Content().Sender()):
+				why = "bad-signature"
+			case !bytes.Equal(x.SenderMemberId(), m.leader(mv)):
+				why = "preprepare-not-from-leader"
+			}
+		case *interfaces.PrepareMessage:
+			hd := x.Content().SignedHeader()
+			switch {
+			case hd.MessageType() != protocol.LEAN_HELIX_PREPARE:
+				why = "type-mismatch"
+			case uint64(hd.InstanceId()) != net.w.Inst || !atHeight:
+				why = "wrong-instance-or-height"
+			case !m.isMember(x.SenderMemberId()):
+				why = "outsider-sender"
+			case !m.verifies(n, hd.BlockHeight(), hd.Raw(), x.Content().Sender()):
+				why = "bad-signature"
+			case bytes.Equal(x.SenderMemberId(), m.leader(mv)):
+				why = "prepare-from-leader"
+			case mv < pre.v:
+				why = "stale-view"
+			}
+		case *interfaces.CommitMessage:
+			hd := x.Content().SignedHeader()
+			share := (&protocol.SenderSignatureBuilder{MemberId: x.SenderMemberId(), Signature: primitives.Signature(x.Content().Share())}).Build()
+			switch {
+			case hd.MessageType() != protocol.LEAN_HELIX_COMMIT:
+				why = "type-mismatch"
+			case uint64(hd.InstanceId()) != net.w.Inst || !atHeight:
+				why = "wrong-instance-or-height"
+			case !m.isMember(x.SenderMemberId()):
+				why = "outsider-sender"
+			case !m.verifies(n, hd.BlockHeight(), hd.Raw(), x.Content().Sender()):
+				why = "bad-signature"
+			case n.KM.VerifyRandomSeed(hd.BlockHeight(), randomseed.RandomSeedToBytes(net.w.SeedFor(uint64(hd.BlockHeight()))), share) != nil:
+				why = "bad-share"
+			}
+		case *interfaces.ViewChangeMessage:
+			hd := x.Content().SignedHeader()
+			switch {
+			case hd.MessageType() != protocol.LEAN_HELIX_VIEW_CHANGE:
+				why = "type-mismatch"
+			case uint64(hd.InstanceId()) != net.w.Inst || !atHeight:
+				why = "wrong-instance-or-height"
+			case !m.isMember(x.SenderMemberId()):
+				why = "outsider-sender"
+			case !m.verifies(n, hd.BlockHeight(), hd.Raw(), x.Content().Sender()):
+				why = "bad-signature"
+			case !bytes.Equal(m.leader(mv), n.Id):
+				why = "view-change-not-addressed-to-me"
+			case mv < pre.v:
+				why = "stale-view"
+			default:
+				if hasProof(hd.PreparedProof()) {
+					if ok, w := m.proofValid(n, hd.PreparedProof(), pre.h, mv); !ok {
+						why = "vote-" + w
+					}
+				}
+			}
+		case *interfaces.NewViewMessage:
+			if mv < pre.v {
+				why = "stale-view"
+			}
+		}
+		if why != "" {
+			m.viol("C08", why, fmt.Sprintf("node %d was influenced by %T %s although: %s%s; stored=%v outs=%v", n.Idx, cm, short(enc), why, advTag, n.Stored, shortList(n.outs)))
+		}
+		net.c.Nontrivial(fmt.Sprintf("influence/%T/%s", cm, net.lastAdvOp))
+	} else {
+		net.c.Nontrivial(fmt.Sprintf("ignored/%T/%s", cm, net.lastAdvOp))
+	}
+
+	// ---- C07: acting in a view above 0 only on a valid NEW_VIEW certificate
+	adoptedView := int64(-1)
+	for _, o := range n.outs {
+		if strings.HasPrefix(o, "send:") && strings.Contains(o, ":PR(R(2;") {
+			// PR(R(2;inst;h;v;hash)…
+			var t, inst, hh, vv uint64
+			i := strings.Index(o, ":PR(R(")
+			fmt.Sscanf(o[i+6:], "%d;%d;%d;%d;", &t, &inst, &hh, &vv)
+			if hh == pre.h {
+				adoptedView = int64(vv)
+			}
+		}
+	}
+	if adoptedView > 0 && atHeight {
+		switch x := cm.(type) {
+		case *interfaces.NewViewMessage:
+			if ok, why := m.newViewValid(n, x, pre.h); !ok {
+				m.viol("C07", why, fmt.Sprintf("node %d sent PREPARE in view %d on a NEW_VIEW that is not a valid certificate: %s%s", n.Idx, adoptedView, why, advTag))
+			} else if uint64(x.View()) != uint64(adoptedView) {
+				m.viol("C07", "nv-other-view", fmt.Sprintf("node %d sent PREPARE in view %d on a NEW_VIEW for view %d", n.Idx, adoptedView, uint64(x.View())))
+			}
+			net.c.Nontrivial(fmt.Sprintf("adopt-gt0/newview/%s", net.lastAdvOp))
+		case *interfaces.PreprepareMessage:
+			m.viol("C07", "bare-preprepare-gt0", fmt.Sprintf("node %d sent PREPARE in view %d on a bare PREPREPARE (no NEW_VIEW certificate)%s", n.Idx, adoptedView, advTag))
+		default:
+			m.viol("C07", "adopt-on-other-message", fmt.Sprintf("node %d sent PREPARE in view %d while handling %T", n.Idx, adoptedView, cm))
+		}
+	}
+
+	// ---- C11: what a correct node emits, correct peers in a matching state accept
+	if !f.Byz && f.From != nil && net.nodes[string(f.From)] != nil && atHeight && !pre.dup {
+		post := n.St.HeightView()
+		sameHeight := uint64(post.Height()) == pre.h
+		interfered := false
+		for _, s := range n.spi {
+			if strings.HasPrefix(s, "verd(0") || strings.HasSuffix(s, ";1)") && (strings.HasPrefix(s, "verd(") || strings.HasPrefix(s, "prop(")) {
+				interfered = true
+			}
+		}
+		switch x := cm.(type) {
+		case *interfaces.PrepareMessage:
+			if mv >= pre.v && sameHeight {
+				if !containsId(n.Store.GetPrepareSendersIds(x.BlockHeight(), x.View(), x.Content().SignedHeader().BlockHash()), x.SenderMemberId()) {
+					m.viol("C11", "honest-prepare-not-counted", fmt.Sprintf("node %d did not count the PREPARE of correct node %x for view %d (own view %d)", n.Idx, f.From, mv, pre.v))
+				}
+				net.c.Nontrivial("c11/prepare")
+			}
+		case *interfaces.CommitMessage:
+			if sameHeight {
+				if !containsId(n.Store.GetCommitSendersIds(x.BlockHeight(), x.View(), x.Content().SignedHeader().BlockHash()), x.SenderMemberId()) {
+					m.viol("C11", "honest-commit-not-counted", fmt.Sprintf("node %d did not count the COMMIT of correct node %x for view %d", n.Idx, f.From, mv))
+				}
+				net.c.Nontrivial("c11/commit")
+			}
+		case *interfaces.ViewChangeMessage:
+			if mv >= pre.v && bytes.Equal(m.leader(mv), n.Id) && sameHeight {
+				vcs, _ := n.Store.GetViewChangeMessages(x.BlockHeight(), x.View())
+				found := false
+				for _, vc := range vcs {
+					if bytes.Equal(vc.SenderMemberId(), x.SenderMemberId()) {
+						found = true
+					}
+				}
+				if !found {
+					m.viol("C11", "honest-viewchange-not-counted", fmt.Sprintf("leader node %d did not count the VIEW_CHANGE of correct node %x for view %d (own view %d)", n.Idx, f.From, mv, pre.v))
+				}
+				net.c.Nontrivial("c11/viewchange")
+			}
+		case *interfaces.NewViewMessage:
+			if mv >= pre.v && !pre.hasPPAtMV && !interfered && sameHeight {
+				_, has := n.Store.GetPreprepareMessage(x.BlockHeight(), x.View())
+				if uint64(post.View()) != mv || !has {
+					m.viol("C11", "honest-newview-not-adopted", fmt.Sprintf("node %d (view %d) did not adopt the NEW_VIEW of correct leader %x for view %d", n.Idx, pre.v, f.From, mv))
+				}
+				net.c.Nontrivial("c11/newview")
+			}
+		}
+	}
+}
+
+func containsId(ids []primitives.MemberId, id []byte) bool {
+	for _, x := range ids {
+		if bytes.Equal(x, id) {
+			return true
+		}
+	}
+	return false
+}
+
+func short(s string) string {
+	if len(s) > 300 {
+		return s[:300] + "…"
+	}
+	return s
+}
+func shortList(xs []string) string { return short(strings.Join(xs, "|")) }
 
 func (m *Monitors) afterEvent(n *RealNode, ev string) {
 	id := string(n.Id)
@@ -42,6 +469,112 @@ func (m *Monitors) afterEvent(n *RealNode, ev string) {
 		}
 		m.oneCommit(n, id)
 	}
+	m.outgoing(n, ev)
+}
+
+// ---- C10 (and the producer half of C09): the outgoing stream of a correct node
+func (m *Monitors) outgoing(n *RealNode, ev string) {
+	net := m.net
+	hvNow := n.St.HeightView()
+	for _, s := range n.newSent {
+		cm := interfaces.ToConsensusMessage(s.Raw)
+		if cm == nil {
+			continue
+		}
+		h, v := uint64(cm.BlockHeight()), uint64(cm.View())
+		k := key(n, h, v)
+		one := func(tbl map[string]string, hash []byte, what string) {
+			if old, ok := tbl[k]; ok && old != string(hash) {
+				m.viol("C10", "equivocation-"+what, fmt.Sprintf("node %d signed two different %s hashes for height %d view %d", n.Idx, what, h, v))
+			}
+			tbl[k] = string(hash)
+		}
+		hk := fmt.Sprintf("%d|%d", n.Idx, h)
+		switch x := cm.(type) {
+		case *interfaces.PreprepareMessage:
+			one(m.signedPP, x.Content().SignedHeader().BlockHash(), "proposal")
+			if !bytes.Equal(m.leader(v), n.Id) {
+				m.viol("C10", "proposal-by-non-leader", fmt.Sprintf("node %d sent a PREPREPARE for view %d it does not lead", n.Idx, v))
+			}
+			if v < m.maxView[hk] {
+				m.viol("C10", "proposal-below-current-view", fmt.Sprintf("node %d sent a PREPREPARE for view %d after moving to view %d", n.Idx, v, m.maxView[hk]))
+			}
+		case *interfaces.NewViewMessage:
+			one(m.signedPP, x.Content().Message().SignedHeader().BlockHash(), "proposal")
+			if v < m.maxView[hk] {
+				m.viol("C10", "proposal-below-current-view", fmt.Sprintf("node %d sent a NEW_VIEW for view %d after moving to view %d", n.Idx, v, m.maxView[hk]))
+			}
+			m.checkNewViewProduced(n, x)
+		case *interfaces.PrepareMessage:
+			one(m.signedP, x.Content().SignedHeader().BlockHash(), "PREPARE")
+			if bytes.Equal(m.leader(v), n.Id) {
+				m.viol("C10", "prepare-as-leader", fmt.Sprintf("node %d sent a PREPARE in view %d which it leads", n.Idx, v))
+			}
+			if v < m.maxView[hk] {
+				m.viol("C10", "prepare-below-current-view", fmt.Sprintf("node %d sent a PREPARE for view %d after moving to view %d", n.Idx, v, m.maxView[hk]))
+			}
+			// PREPARE only for the proposal it accepted from that view's leader
+			if pp, ok := n.Store.GetPreprepareMessage(x.BlockHeight(), x.View()); uint64(hvNow.Height()) == h && (!ok || !bytes.Equal(pp.Content().SignedHeader().BlockHash(), x.Content().SignedHeader().BlockHash()) || !bytes.Equal(pp.SenderMemberId(), m.leader(v))) {
+				m.viol("C10", "prepare-without-accepted-proposal", fmt.Sprintf("node %d sent PREPARE for height %d view %d without holding that view's leader's proposal for the same hash", n.Idx, h, v))
+			}
+		case *interfaces.CommitMessage:
+			one(m.signedC, x.Content().SignedHeader().BlockHash(), "COMMIT")
+		case *interfaces.ViewChangeMessage:
+			if last, ok := m.lastVC[hk]; ok && int64(v) <= last {
+				m.viol("C10", "viewchange-views-not-increasing", fmt.Sprintf("node %d sent VIEW_CHANGE for view %d after one for view %d", n.Idx, v, last))
+			}
+			m.lastVC[hk] = int64(v)
+			m.checkViewChangeProduced(n, x)
+		}
+		net.c.Nontrivial(fmt.Sprintf("out/%T", cm))
+	}
+	if uint64(hvNow.View()) > m.maxView[fmt.Sprintf("%d|%d", n.Idx, uint64(hvNow.Height()))] {
+		m.maxView[fmt.Sprintf("%d|%d", n.Idx, uint64(hvNow.Height()))] = uint64(hvNow.View())
+	}
+}
+
+// C09 (first half): a VIEW_CHANGE sent while holding a prepared certificate carries a valid proof
+// for the highest prepared view, with the matching block.
+func (m *Monitors) checkViewChangeProduced(n *RealNode, x *interfaces.ViewChangeMessage) {
+	h, v := uint64(x.BlockHeight()), uint64(x.View())
+	t := n.Worker.VerifTerm()
+	if t == nil {
+		return
+	}
+	pv, prepared := t.VerifPreparedLocally()
+	p := x.Content().SignedHeader().PreparedProof()
+	if !prepared {
+		return
+	}
+	m.net.c.Nontrivial("c09/vote-while-prepared")
+	if !hasProof(p) {
+		m.viol("C09", "vote-without-proof", fmt.Sprintf("node %d is prepared in view %d but its VIEW_CHANGE for view %d carries no proof", n.Idx, uint64(pv), v))
+		return
+	}
+	if uint64(p.PreprepareBlockRef().View()) != uint64(pv) {
+		m.viol("C09", "vote-proof-not-highest", fmt.Sprintf("node %d is prepared in view %d but its VIEW_CHANGE carries a proof of view %d", n.Idx, uint64(pv), uint64(p.PreprepareBlockRef().View())))
+	}
+	if ok, why := m.proofValid(n, p, h, v); !ok {
+		m.viol("C09", "vote-proof-invalid:"+why, fmt.Sprintf("node %d sent a VIEW_CHANGE whose own prepared proof is not valid: %s", n.Idx, why))
+	}
+	fb, _ := x.Block().(*FakeBlock)
+	if fb == nil || !bytes.Equal(blockHash(fb), p.PreprepareBlockRef().BlockHash()) {
+		m.viol("C09", "vote-block-mismatch", fmt.Sprintf("node %d sent a VIEW_CHANGE whose block does not match its proof", n.Idx))
+	}
+}
+
+// C09 (second half) + C07 (leader side): the NEW_VIEW a correct leader sends embeds a quorum of
+// valid votes and proposes the block of the highest-view proof among them, or a fresh block if none.
+func (m *Monitors) checkNewViewProduced(n *RealNode, x *interfaces.NewViewMessage) {
+	h := uint64(x.BlockHeight())
+	if ok, why := m.newViewValid(n, x, h); !ok {
+		sig := "own-newview-invalid:" + why
+		m.viol("C11", sig, fmt.Sprintf("correct leader node %d sent a NEW_VIEW for view %d that is not a valid certificate (%s): correct peers must reject it", n.Idx, uint64(x.View()), why))
+		if strings.Contains(why, "highest-prepared") {
+			m.viol("C09", "newview-does-not-repropose-highest", fmt.Sprintf("correct leader node %d proposed a block other than the highest prepared one among the votes it embeds", n.Idx))
+		}
+	}
+	m.net.c.Nontrivial("c09/newview-produced")
 }
 
 func (m *Monitors) oneCommit(n *RealNode, id string) {
@@ -66,6 +599,19 @@ func (m *Monitors) oneCommit(n *RealNode, id string) {
 		m.decided[h][id] = co.Block
 		net.c.Nontrivial(fmt.Sprintf("commit/h%d/n%d", h, n.Idx))
 		net.c.Class("commit")
+		// --- C04: external validity
+		approved := false
+		for _, o := range net.order {
+			if o.Approved[co.Block.Id] || o.Proposed[co.Block.Id] {
+				approved = true
+			}
+		}
+		if !approved {
+			m.viol("C04", "committed-unvalidated-block", fmt.Sprintf("height %d: node %d committed block %d which no correct member's consumer validated or proposed", h, n.Idx, co.Block.Id))
+		}
+		if co.Block.H != uint64(n.St.Height())-0 && false {
+			_ = approved
+		}
 		// --- C03: every committed (block, proof) passes strict ValidateBlockConsensus on another correct node
 		for _, o := range net.order {
 			if o == n {
@@ -75,10 +621,6 @@ func (m *Monitors) oneCommit(n *RealNode, id string) {
 			if h > 1 {
 				prevProof = net.syncProof(h - 1)
 			}
-			var prev *FakeBlock
-			if h > 1 {
-				prev = &FakeBlock{H: h - 1}
-			}
 			var err error
 			func() {
 				defer func() {
@@ -86,10 +628,10 @@ func (m *Monitors) oneCommit(n *RealNode, id string) {
 						err = fmt.Errorf("panic: %v", r)
 					}
 				}()
-				if prev == nil {
-					err = o.Worker.ValidateBlockConsensus(context.Background(), co.Block, co.Proof, nil, prevProof, false)
+				if h > 1 {
+					err = o.Worker.ValidateBlockConsensus(context.Background(), co.Block, co.Proof, &FakeBlock{H: h - 1}, prevProof, false)
 				} else {
-					err = o.Worker.ValidateBlockConsensus(context.Background(), co.Block, co.Proof, prev, prevProof, false)
+					err = o.Worker.ValidateBlockConsensus(context.Background(), co.Block, co.Proof, nil, prevProof, false)
 				}
 			}()
 			if err != nil {
